@@ -42,6 +42,8 @@ type LeakyBucketPacer struct {
 	writerLock   sync.RWMutex
 
 	pool *sync.Pool
+
+	closeOnce sync.Once
 }
 
 // NewLeakyBucketPacer initializes a new LeakyBucketPacer.
@@ -179,7 +181,7 @@ func (p *LeakyBucketPacer) Run() {
 
 // Close closes the LeakyBucketPacer.
 func (p *LeakyBucketPacer) Close() error {
-	close(p.done)
+	p.closeOnce.Do(func() { close(p.done) })
 	// wait for the pacing goroutine: nothing may be written once Close has returned
 	p.wg.Wait()
 
